@@ -168,6 +168,15 @@ func cmdCheck(args []string) int {
 			obls = append(obls, o)
 		}
 	}
+	// raw SMT lemmas (facts about machine arithmetic proved once in a precise theory; the same facts are used as
+	// axioms of the uninterpreted conversion functions in the int-mode queries)
+	for _, lm := range e.db.Lemmas {
+		if lm.Raw == "" || (*prop != "" && !hasTag(lm.Tags, *prop)) || *only != "" {
+			continue
+		}
+		lvc := &VC{key: "lemma", lines: []string{lm.Raw}}
+		obls = append(obls, &Obligation{Name: "lemma/" + lm.Name, Kind: "LEMMA", Fn: "lemma", Tags: lm.Tags, Expect: "unsat", vc: lvc, RawQuery: lm.Raw + "\n(check-sat)\n", Desc: "lemma " + lm.Name, Where: lm.Line})
+	}
 	sem := make(chan struct{}, 16)
 	for i, o := range obls {
 		wg.Add(1)
@@ -175,7 +184,12 @@ func cmdCheck(args []string) int {
 		go func(i int, o *Obligation) {
 			defer wg.Done()
 			defer func() { <-sem }()
-			q := o.query()
+			q := ""
+			if o.RawQuery != "" {
+				q = o.RawQuery
+			} else {
+				q = o.query()
+			}
 			if o.Expect == "notunsat" {
 				q = o.vacuityQuery()
 			}
